@@ -545,8 +545,8 @@ func bfs(cfg Cfg, thorough bool, deadline time.Time) *workerOut {
 					}
 					seen[out.Key] = true
 					ls.NewStates++
-					if len(wo.Samples) < 3 && d == depth && out.Class != "ask" && strings.Contains(out.Class, "stale") {
-						wo.Samples = append(wo.Samples, histString(h)+" => "+out.Class)
+					if d == depth && (len(wo.Samples) == 0 || (len(wo.Samples) < 3 && (strings.Contains(out.Class, "stale-served") || strings.Contains(out.Class, "evict-lru")))) {
+						wo.Samples = append(wo.Samples, "["+l.Name+"] "+histString(h)+" => "+out.Class)
 					}
 					if d < depth {
 						next = append(next, node{hist: h, targets: out.Targets, canClone: out.CanClone})
